@@ -1,0 +1,35 @@
+//go:build verif
+
+package signature
+
+// Machine-checked contracts for the deductive checks in /verif (see
+// /verif/DESIGN.md). Comment-only; compiled solely under the "verif" build tag.
+
+//@ ghost func member(a []string, n int, s string) bool := n <= 0 ? false : (member(a, n-1, s) || a[n-1] == s)
+
+//@ define mand(f) := f == "command" || f == "env" || f == "plugins" || f == "matrix" || f == "repository_url"
+
+//@ func EmptyToNilMap
+//@   pure
+//@   assigns nothing
+//@   ensures [nilempty] (len(m) == 0 ==> ret == nil) && (len(m) != 0 ==> ret == m)
+
+//@ func EmptyToNilSlice
+//@   pure
+//@   assigns nothing
+//@   ensures [nilempty] (len(s) == 0 ==> ret == nil) && (len(s) != 0 ==> ret == s)
+
+//@ func requireKeys
+//@   assigns nothing
+//@   ensures [ok]   ret1 == nil <==> (forall i int :: {keys[i]} 0 <= i && i < len(keys) ==> has(in, keys[i]))
+//@   ensures [copy] ret1 == nil ==> ret0 != nil && fresh(ret0) &&
+//@       (forall k K :: {has(ret0, k)} has(ret0, k) <==> (exists i int :: {keys[i]} 0 <= i && i < len(keys) && keys[i] == k)) &&
+//@       (forall k K :: {ret0[k]} has(ret0, k) ==> ret0[k] == in[k])
+//@   ensures [err]  ret1 != nil ==> ret0 == nil
+//@   loop 0
+//@     assigns *out
+//@     invariant [out] out != nil && fresh(out) && 0 <= $idx && $idx <= len(keys)
+//@     invariant [seen] forall i int :: {keys[i]} 0 <= i && i < $idx ==> has(in, keys[i]) && has(out, keys[i])
+//@     invariant [dom] forall k K :: {has(out, k)} has(out, k) ==> (exists i int :: {keys[i]} 0 <= i && i < $idx && keys[i] == k)
+//@     invariant [val] forall k K :: {out[k]} has(out, k) ==> out[k] == in[k]
+//@     decreases len(keys) - $idx
